@@ -223,3 +223,38 @@ package langserver
 //@   props C02 C08
 //@   at call HandleFileChangeAnalysis#0 before assert[live-analysis-gets-the-buffer-text-itself] arg2 != nil && streq(arg1, strFile)
 //@ end
+
+// ---- C19: what the two symbol handlers hand to the client ----
+// workspace/symbol: the k-th answer is the k-th symbol found, under its own name, in its declaring file, at its
+// declaration (LocToRange of its location; C04 contract); nothing found is dropped.
+//@ func (*LspServer).WorkspaceSymbolRequest
+//@   props C19 C04
+//@   at call GetFileDocumentURI#0 before assert[C19,answer-names-the-declaring-file] streq(arg0, oneSymbol.FileName)
+//@   at call append#0 before assert[C19,kth-answer-is-appended-at-k] len(items) == rangeindex + 1 && 0 <= rangeindex + 1 && rangeindex + 1 < len(fileSymbolVec)
+//@   at call append#0 before assert[C19,answer-carries-the-symbols-name-and-file] streq(arg1[0].Name, oneSymbol.Name) && arg1[0].Location.URI == lastresult("GetFileDocumentURI#0")
+//@   at call append#0 before assert[C19,C04,answer-is-at-the-symbols-declaration] wfLoc(oneSymbol.Loc.StartLine, oneSymbol.Loc.StartColumn, oneSymbol.Loc.EndLine, oneSymbol.Loc.EndColumn) ==>
+//@            arg1[0].Location.Range.Start.Line == oneSymbol.Loc.StartLine - 1 && arg1[0].Location.Range.Start.Character == oneSymbol.Loc.StartColumn
+//@            && arg1[0].Location.Range.End.Line == oneSymbol.Loc.EndLine - 1 && arg1[0].Location.Range.End.Character == oneSymbol.Loc.EndColumn
+//@   at call append#0 before assert[C19,kth-answer-is-a-copy-of-the-kth-symbol] streq(oneSymbol.Name, fileSymbolVec[rangeindex + 1].Name) && oneSymbol.Loc.StartLine == fileSymbolVec[rangeindex + 1].Loc.StartLine
+//@        && oneSymbol.Loc.StartColumn == fileSymbolVec[rangeindex + 1].Loc.StartColumn && oneSymbol.Loc.EndLine == fileSymbolVec[rangeindex + 1].Loc.EndLine && oneSymbol.Loc.EndColumn == fileSymbolVec[rangeindex + 1].Loc.EndColumn
+//@   loop range:fileSymbolVec invariant [C19,C04] len(items) == rangeindex + 1 && rangeindex + 1 <= len(fileSymbolVec)
+//@   loop range:fileSymbolVec exits-early-only-if [C19,every-found-symbol-is-answered] false
+//@ end
+
+// document outline: one entry per symbol, in order, range and selection range both the symbol's location; the children
+// of an entry are converted from the symbol's own children
+//@ func transferSymbolVec
+//@   props C19 C04
+//@   at call append#0 before assert[C19,kth-outline-entry-is-appended-at-k] len(items) == rangeindex + 1 && 0 <= rangeindex + 1 && rangeindex + 1 < len(fileSymbolVec)
+//@   at call append#0 before assert[C19,C04,outline-entry-is-at-the-symbols-declaration] wfLoc(oneSymbol.Loc.StartLine, oneSymbol.Loc.StartColumn, oneSymbol.Loc.EndLine, oneSymbol.Loc.EndColumn) ==>
+//@            arg1[0].Range.Start.Line == oneSymbol.Loc.StartLine - 1 && arg1[0].Range.Start.Character == oneSymbol.Loc.StartColumn
+//@            && arg1[0].Range.End.Line == oneSymbol.Loc.EndLine - 1 && arg1[0].Range.End.Character == oneSymbol.Loc.EndColumn
+//@   at call append#0 before assert[C19,selection-range-is-the-range] arg1[0].SelectionRange.Start.Line == arg1[0].Range.Start.Line && arg1[0].SelectionRange.Start.Character == arg1[0].Range.Start.Character
+//@        && arg1[0].SelectionRange.End.Line == arg1[0].Range.End.Line && arg1[0].SelectionRange.End.Character == arg1[0].Range.End.Character
+//@   at call append#0 before assert[C19,kth-outline-entry-is-a-copy-of-the-kth-symbol] oneSymbol.Loc.StartLine == fileSymbolVec[rangeindex + 1].Loc.StartLine
+//@        && oneSymbol.Loc.StartColumn == fileSymbolVec[rangeindex + 1].Loc.StartColumn && oneSymbol.Loc.EndLine == fileSymbolVec[rangeindex + 1].Loc.EndLine && oneSymbol.Loc.EndColumn == fileSymbolVec[rangeindex + 1].Loc.EndColumn
+//@   at call transferSymbolVec#0 before assert[C19,children-are-converted-from-the-symbols-own-children] arg0 == oneSymbol.Children
+//@   loop range:fileSymbolVec invariant [C19,C04] len(items) == rangeindex + 1 && rangeindex + 1 <= len(fileSymbolVec)
+//@   loop range:fileSymbolVec exits-early-only-if [C19,every-symbol-becomes-an-outline-entry] false
+//@   ensures[C19,one-outline-entry-per-symbol] len(items) == len(fileSymbolVec)
+//@ end
